@@ -39,6 +39,10 @@ func runC12(c *Ctx) {
 }
 
 func c12ExactlyOne(c *Ctx, add *ssa.Function) {
+	withInline(func() { c12ExactlyOneIn(c, add) })
+}
+
+func c12ExactlyOneIn(c *Ctx, add *ssa.Function) {
 	const r1 = "every path through Histogram.Add increments exactly one element of Counts by one and Total by one, outside any loop"
 	const r2 = "the scan leaves the loop at index i iff Latency ≥ Buckets[i] && Latency < Buckets[i+1]; it is bounded by len(Buckets)-1 (last bucket = overflow); the element counted is Counts[i] for that i"
 	var countStores, totalStores []*ssa.Store
@@ -105,11 +109,32 @@ func c12ExactlyOne(c *Ctx, add *ssa.Function) {
 	// boundary polarity
 	key2 := "boundary-polarity:(*lib.Histogram).Add"
 	idx := cs.Addr.(*ssa.IndexAddr).Index
+	scanFn := add
+	// the scan may live in a single-site helper (Buckets.index(latency)) that returns its loop variable
+	if call, isCall := idx.(*ssa.Call); isCall {
+		if h := call.Call.StaticCallee(); h != nil && singleSite(c.P, h) == call {
+			var ret ssa.Value
+			same := true
+			eachInstr(h, func(i ssa.Instruction) {
+				if r, isR := i.(*ssa.Return); isR && len(r.Results) == 1 {
+					if ret != nil && ret != r.Results[0] {
+						same = false
+					}
+					ret = r.Results[0]
+				}
+			})
+			if same && ret != nil {
+				idx, scanFn = ret, h
+				c.Saw("function " + shortFn(h))
+			}
+		}
+	}
 	phi, isPhi := idx.(*ssa.Phi)
 	if !isPhi || !isRangeIndex(phi) {
 		c.Fail(key2, r2, "the counted index is not the scan's loop variable", c.at(cs))
 		return
 	}
+	isBucketsVal := func(v ssa.Value) bool { return histField(v, "Buckets") || describeVal(v) == "recv.Buckets" }
 	isLat := func(v ssa.Value) bool { return describeVal(v) == "arg0.Latency" }
 	isBucketAt := func(v ssa.Value, want ssa.Value, plusOne bool) bool {
 		ld, ok := isLoad(v)
@@ -117,7 +142,7 @@ func c12ExactlyOne(c *Ctx, add *ssa.Function) {
 			return false
 		}
 		ia, ok := ld.X.(*ssa.IndexAddr)
-		if !ok || !histField(ia.X, "Buckets") {
+		if !ok || !isBucketsVal(ia.X) {
 			return false
 		}
 		if !plusOne {
@@ -131,7 +156,7 @@ func c12ExactlyOne(c *Ctx, add *ssa.Function) {
 		return ok && one == 1
 	}
 	var lower, upper, bound *ssa.BinOp
-	eachInstr(add, func(i ssa.Instruction) {
+	eachInstr(scanFn, func(i ssa.Instruction) {
 		bo, ok := i.(*ssa.BinOp)
 		if !ok {
 			return
@@ -142,7 +167,7 @@ func c12ExactlyOne(c *Ctx, add *ssa.Function) {
 		case bo.Op == token.LSS && isLat(bo.X) && isBucketAt(bo.Y, phi, true), bo.Op == token.GTR && isLat(bo.Y) && isBucketAt(bo.X, phi, true):
 			upper = bo
 		case bo.Op == token.LSS && bo.X == ssa.Value(phi):
-			if sub, ok := bo.Y.(*ssa.BinOp); ok && sub.Op == token.SUB && lenOf(sub.X, func(v ssa.Value) bool { return histField(v, "Buckets") }) {
+			if sub, ok := bo.Y.(*ssa.BinOp); ok && sub.Op == token.SUB && lenOf(sub.X, isBucketsVal) {
 				if one, ok := constInt(sub.Y); ok && one == 1 {
 					bound = bo
 				}
@@ -170,6 +195,10 @@ func c12ExactlyOne(c *Ctx, add *ssa.Function) {
 			okP, why2 = false, "Counts and Total are updated in unrelated blocks"
 		}
 		exit := func(b *ssa.BasicBlock) bool {
+			if scanFn != add {
+				// in the helper: outside the loop, on the way to `return i`
+				return loopHeaderOf(b) == nil
+			}
 			return b == countBlk || b == cs.Block() || b.Dominates(countBlk) && loopHeaderOf(b) == nil
 		}
 		// bound false → exit
@@ -458,6 +487,46 @@ func c12Unmarshal(c *Ctx) {
 			parse = call
 		}
 	})
+	if parse == nil {
+		// a same-package wrapper whose every result is time.ParseDuration's, unchanged
+		eachInstr(fn, func(i ssa.Instruction) {
+			call, ok := i.(*ssa.Call)
+			if !ok || parse != nil {
+				return
+			}
+			h := call.Call.StaticCallee()
+			if h == nil || h.Pkg != fn.Pkg || len(h.Blocks) == 0 || h.Signature.Results().Len() != 2 || !isNamedType(h.Signature.Results().At(0).Type(), "time", "Duration") {
+				return
+			}
+			inner := callsNamed(h, "time.ParseDuration")
+			pure := len(inner) > 0
+			eachInstr(h, func(j ssa.Instruction) {
+				ret, isR := j.(*ssa.Return)
+				if !isR {
+					return
+				}
+				switch v := ret.Results[0].(type) {
+				case *ssa.Extract:
+					pc, isCall := v.Tuple.(*ssa.Call)
+					if !isCall || v.Index != 0 || callName(&pc.Call) != "time.ParseDuration" {
+						pure = false
+					}
+				case *ssa.Const:
+					if z, isZ := constInt(v); !isZ || z != 0 || isNilConst(ret.Results[1]) {
+						pure = false
+					}
+				default:
+					pure = false
+				}
+			})
+			if pure {
+				parse = call
+				c.Saw("function " + shortFn(h))
+			} else if len(inner) > 0 || strings.Contains(strings.ToLower(h.Name()), "pars") {
+				c.Fail(key, rule, "bounds are produced by "+shortFn(h)+", which does not return time.ParseDuration's result unchanged on every path (a bound computed another way, e.g. through float64, is not the bound that was given)", c.fnAt(h))
+			}
+		})
+	}
 	if parse == nil {
 		c.Fail(key, rule, "no time.ParseDuration call", c.fnAt(fn))
 		return
